@@ -24,11 +24,13 @@ struct Src {
 	bool genuine = true;   // its calendar chain (if any) is the reference world's
 };
 
-static const int64_t EPOCHS_S[] = {1600000000LL, 1700000000LL, 2147483000LL, 4294967000LL, 1500100000LL};
+// (the last one: the rounds of the reference world start three seconds before 2^32 and run across it)
+static const int64_t EPOCHS_S[] = {1600000000LL, 1700000000LL, 2147483000LL, 4294967000LL, 1500100000LL, 4294967296LL + 300000 - 3};
 
 struct WorldSim;
 static WorldSim *g_wcur = nullptr;
 static int w_conf_cb(KSI_CTX *, KSI_Config *c);
+static int w_header_cb(KSI_Header *hdr);
 
 struct WorldSim {
 	struct ConfEv { uint64_t seq; ConfVals cv; };
@@ -47,7 +49,7 @@ struct WorldSim {
 	explicit WorldSim(const run::Plan &p) : plan(p) {}
 
 	void setup() {
-		int64_t epoch = EPOCHS_S[plan.c("epoch", 0) % 5] * 1000 + plan.c("epoch_ms", 0) % 1000;
+		int64_t epoch = EPOCHS_S[plan.c("epoch", 0) % 6] * 1000 + plan.c("epoch_ms", 0) % 1000;
 		K.reset(epoch);
 		N.reset();
 		C.reset();
@@ -64,6 +66,7 @@ struct WorldSim {
 		KSI_CTX_setTransferTimeoutSeconds(ctx, transfer_to);
 		KSI_CTX_setConnectionTimeoutSeconds(ctx, connect_to);
 		g_wcur = this;
+		if (plan.c("hdr_cb", 0)) { KSI_CTX_setRequestHeaderCallback(ctx, w_header_cb); K.count("probe.request_header_callback"); }
 		if (plan.c("conf_cb", 0)) {
 			KSI_CTX_setOption(ctx, KSI_OPT_AGGR_CONF_RECEIVED_CALLBACK, (void *)w_conf_cb);
 			KSI_CTX_setOption(ctx, KSI_OPT_EXT_CONF_RECEIVED_CALLBACK, (void *)w_conf_cb);
@@ -469,6 +472,16 @@ struct WorldSim {
 	}
 };
 
+// the application's request header callback: it sets the instance and message ids of every request header (the MAC must cover them)
+static int w_header_cb(KSI_Header *hdr) {
+	static uint64_t msg = 0;
+	KSI_CTX *c = g_wcur ? g_wcur->ctx : nullptr; KSI_Integer *inst = nullptr, *mid = nullptr;
+	if (!c) return KSI_OK;
+	if (KSI_Integer_new(c, 0x1234567, &inst) == KSI_OK && KSI_Header_setInstanceId(hdr, inst) != KSI_OK) KSI_Integer_free(inst);
+	if (KSI_Integer_new(c, 1000 + ++msg, &mid) == KSI_OK && KSI_Header_setMessageId(hdr, mid) != KSI_OK) KSI_Integer_free(mid);
+	return KSI_OK;
+}
+
 static int w_conf_cb(KSI_CTX *, KSI_Config *c) {
 	if (g_wcur) g_wcur->conf_events.push_back({K.ev("conf-callback"), read_config(c)});
 	return KSI_OK;
@@ -490,7 +503,7 @@ struct WorldEngine : run::Engine {
 		p.cfg["connect_to"] = g.pickl<int64_t>({1, 2, 5, 10, 10});
 		p.cfg["adv"] = g.chance(1, 4) ? 0 : 1;
 		p.cfg["faults"] = g.chance(1, 4) ? 0 : 1;
-		p.cfg["epoch"] = (int64_t)g.below(5);
+		p.cfg["epoch"] = g.chance(1, 8) ? 5 : (int64_t)g.below(5);
 		p.cfg["epoch_ms"] = (int64_t)g.below(1000);
 		p.cfg["loglevel"] = g.chance(1, 6) ? g.pickl<int64_t>({5, 5, 6, 7}) : 0;
 		p.cfg["warm"] = g.chance(1, 30) ? (int64_t)g.range(250, 258) : 0;
@@ -509,6 +522,8 @@ struct WorldEngine : run::Engine {
 			run::Op op; op.k = "SWEEP";
 			op.a = {(int64_t)g.below(20), (int64_t)g.below(3), 0, (int64_t)g.below(1 << 30), 0, 0, 0, 0, 0, 0, 29, (int64_t)g.below(29), (int64_t)g.below(3)};
 			p.cfg["conf_cb"] = (int64_t)g.below(2);
+			p.cfg["cred_in_uri"] = g.chance(1, 4) ? 1 : 0;
+			p.cfg["hdr_cb"] = g.chance(1, 3) ? 1 : 0;
 			p.ops.push_back(op);
 			return p;
 		}
@@ -541,6 +556,7 @@ struct WorldEngine : run::Engine {
 		}
 		p.cfg["conf_cb"] = (int64_t)g.below(2);
 		p.cfg["cred_in_uri"] = g.chance(1, 4) ? 1 : 0;
+		p.cfg["hdr_cb"] = g.chance(1, 4) ? 1 : 0;
 		return p;
 	}
 	run::RunResult execute(const run::Plan &p, bool trace) override {
